@@ -472,7 +472,7 @@ fn sampled_strategy() -> BoxedStrategy<Case> {
 }
 
 fn main() {
-    let mut ck = Check::from_args("C14", "fault_enumeration");
+    let mut ck = Check::from_args("C14", "exploration");
     let tier = ck.tier;
     ck.extra(
         "rule",
